@@ -245,10 +245,16 @@ impl Eng {
         crate::shim::log_reset();
         crate::shim::record_data(false);
         crate::shim::watch(Some(&self.dir));
+        // half of the time the file system also takes the entry in two parts, so that the failing call
+        // can be the one that comes back with the rest (a part of the entry is then in the file)
+        if self.r.chance(1, 2) {
+            crate::shim::short_writes(1_000_000, self.r.next_u64() | 1);
+        }
         crate::shim::fail(crate::shim::C_WRITE | crate::shim::C_CREATE | crate::shim::C_FSYNC, crate::shim::F_DATA, nth, errno);
         let res: Result<(), OpErr> = if is_set { self.st().set(&k, &v) } else { self.st().del(&k).map(|_| ()) };
         let hit = crate::shim::fail_hit().is_some();
         crate::shim::fail_off();
+        crate::shim::short_writes(0, 0);
         crate::shim::watch(None);
         crate::shim::log_reset();
         let before = self.model.get(&k).cloned();
